@@ -171,6 +171,8 @@ impl LoggerHandle {
         &mut self,
         new_spec: S,
     ) -> Result<(), FlexiLoggerError> {
+        // parse first: a rejected string must not leave an entry on the stack
+        let new_spec = LogSpecification::parse(new_spec)?;
         self.writers_handle.spec_stack.push(
             self.writers_handle
                 .spec
@@ -178,7 +180,7 @@ impl LoggerHandle {
                 .map_err(|_| FlexiLoggerError::Poison)?
                 .clone(),
         );
-        self.set_new_spec(LogSpecification::parse(new_spec)?);
+        self.set_new_spec(new_spec);
         Ok(())
     }
 
